@@ -20,7 +20,9 @@ def programs(depth):
             if a.startswith("with") and a not in ("withbad", "withmixed"):
                 for nbody in range(0, d):
                     for body in gen_exact(nbody):
-                        for ex in ("normal", "raise"):
+                        # ways out of the block: normally, by an ordinary exception, by an exception that is NOT an Exception
+                        # (KeyboardInterrupt-like), by closing a generator that is suspended inside the block (GeneratorExit)
+                        for ex in ("normal", "raise", "raise_base", "close"):
                             for rest in gen(d - 1 - nbody):
                                 yield [[a, body, ex]] + rest
             else:
@@ -56,6 +58,10 @@ class Boom(Exception):
     pass
 
 
+class Abort(BaseException):
+    pass
+
+
 def kw_of(atom):
     if atom.endswith("0"):
         return dict([VALID[0]])
@@ -88,6 +94,23 @@ def run(program, model, numpoly, trace):
         else:
             kw = kw_of(atom)
             entered = False
+            if exit_kind == "close" and all(k in model for k in kw):
+                # a generator suspended inside the block is closed: GeneratorExit is raised at its yield
+                def held():
+                    with numpoly.global_options(**kw):
+                        yield numpoly.get_options()
+                g = held()
+                want = dict(before)
+                want.update(kw)
+                if next(g) != want:
+                    return f"inside a generator-held global_options({kw}): options differ from {want}"
+                r = run(body, dict(want), numpoly, trace)
+                if r:
+                    return r
+                g.close()
+                if numpoly.get_options() != before:
+                    return f"after closing a generator suspended inside global_options({kw}): {numpoly.get_options()} != previous {before}"
+                continue
             try:
                 with numpoly.global_options(**kw) as inside:
                     entered = True
@@ -105,7 +128,9 @@ def run(program, model, numpoly, trace):
                         return r
                     if exit_kind == "raise":
                         raise Boom()
-            except Boom:
+                    if exit_kind == "raise_base":
+                        raise Abort()
+            except (Boom, Abort):
                 pass
             except KeyError:
                 if entered or all(k in model for k in kw):
